@@ -37,7 +37,7 @@ def run(ctx):
     ctx.exhaustive = True
     ctx.rule = ("one case per state of HttpRequestTargets (a request target), HttpRequestStreams (a request stream cut at "
                 "one offset) and HttpRequestUrl (a URL string); non-trivial = non-empty input; distinct = distinct case lines")
-    args = ["--tmp", ctx.tmp, "--case-timeout-ms", "12000"]
+    args = ["--tmp", ctx.tmp, "--case-timeout-ms", "12000", "--batch", "400"]
     # R1: request streams x every cut offset (first: the defects that hang or crash are found on few cases)
     c = _cases(ctx, "HttpRequestStreams", "MC_HttpRequestStreams_" + tier, "c09-req.cases", ctx.pick(300, 1500))
     ctx.replay(rep, c, label="R/HttpRequestStreams", args=args, timeout=ctx.pick(600, 3000))
